@@ -87,7 +87,7 @@ Definition expected_setHead : list shape_stmt :=
 Definition expected_Region_fields : list string :=
   ["f io.ReadWriteSeeker"; "offsets [32][32]int32"; "Timestamps [32][32]int32"; "sectors map[int32]bool"].
 
-Definition expected_writeAt_text : list string :=
-  ["if f, ok := r.f.(io.WriterAt); ok { return f.WriteAt(p, off) }"; "_, err = r.f.Seek(off, 0)";
-        "if err != nil { return 0, err }"; "return r.f.Write(p)"].
+Definition expected_writeAt : list shape_stmt :=
+  [SIfWriterAt "if f, ok := r.f.(io.WriterAt); ok" [SRetWriteAt "return f.WriteAt(p, off)" tt];
+        SEff ESeek "_, err = r.f.Seek(off, 0)" tt; SErrCheck "return 0, err"; SRetWrite "return r.f.Write(p)"].
 
